@@ -49,17 +49,17 @@ Proof.
 Qed.
 
 Lemma all_lt_weaken k k' l : k <= k' -> all_lt k l -> all_lt k' l.
-Proof. intros Hk H. eapply Forall_impl; [|exact H]. intros a Ha. cbv beta in *. lia. Qed.
+Proof. unfold all_lt. intros Hk H. eapply Forall_impl; [|exact H]. intros a Ha. cbv beta in *. lia. Qed.
 
 Lemma all_lt_skipn k l n : all_lt k l -> all_lt k (skipn n l).
 Proof.
-  intros H. apply Forall_forall. intros x Hx. rewrite Forall_forall in H. apply H.
+  unfold all_lt. intros H. apply Forall_forall. intros x Hx. rewrite Forall_forall in H. apply H.
   rewrite <- (firstn_skipn n l). apply in_or_app. right. exact Hx.
 Qed.
 
 Lemma all_lt_firstn k l n : all_lt k l -> all_lt k (firstn n l).
 Proof.
-  intros H. apply Forall_forall. intros x Hx. rewrite Forall_forall in H. apply H.
+  unfold all_lt. intros H. apply Forall_forall. intros x Hx. rewrite Forall_forall in H. apply H.
   rewrite <- (firstn_skipn n l). apply in_or_app. left. exact Hx.
 Qed.
 
@@ -135,26 +135,27 @@ Proof.
   - (* first character of the prefix *)
     change (c :: 110 :: 49 :: chars) with ([c; 110] ++ 49 :: chars) in Hone.
     rewrite (last_index_app 49 [c; 110] chars Hsep) in Hone. injection Hone as Hone. subst one.
-    cbn [firstn map] in Hpre. injection Hpre as Hc0.
+    pose proof (f_equal (fun l => nth 0 l 0) Hpre) as Hc0. cbn [firstn map nth] in Hc0.
     destruct Hcase as [Hlow|Hup].
-    + cbn [map] in Hlow. injection Hlow as Hlc Hl110 Hl49 Hlchars.
-      assert (c = g0) by congruence. subst c.
+    + pose proof (f_equal (fun l => nth 0 l 0) Hlow) as Hl0. cbn [map nth] in Hl0.
+      assert (Ecg : c = g0) by congruence. rewrite Ecg in *. clear Ecg.
       rewrite <- Hlow in Hone', Ehh, Htb. clear Hlow.
       change (g0 :: 110 :: 49 :: chars) with ([g0; 110] ++ 49 :: chars) in Hone'.
       rewrite (last_index_app 49 [g0; 110] chars Hsep) in Hone'. injection Hone' as Hone'. subst one'.
       cbn [length firstn skipn app] in Ehh, Htb.
       unfold chars in Htb. rewrite (to_bytes_chars D HD) in Htb. injection Htb as Htb. subst decoded hh.
-      rewrite <- Ehq in Hvf. rewrite <- Ehp in Hver.
+      rewrite <- Ehq in Hvf.
       pose proof (verify_two_nets p q D HD Hver Hvf) as Epq. subst q.
       rewrite Ehp in Ehq. injection Ehq as Ehq. congruence.
-    + cbn [map] in Hup. injection Hup as _ Hu _. exact (upper_110 (eq_sym Hu)).
+    + pose proof (f_equal (fun l => nth 1 l 0) Hup) as Hu. cbn [map nth] in Hu. vm_compute in Hu. discriminate.
   - (* second character of the prefix *)
     change (h0 :: c :: 49 :: chars) with ([h0; c] ++ 49 :: chars) in Hone.
     rewrite (last_index_app 49 [h0; c] chars Hsep) in Hone. injection Hone as Hone. subst one.
-    cbn [firstn map] in Hpre. injection Hpre as _ Hc1.
+    pose proof (f_equal (fun l => nth 1 l 0) Hpre) as Hc1. cbn [firstn map nth] in Hc1.
     destruct Hcase as [Hlow|Hup].
-    + cbn [map] in Hlow. injection Hlow as _ Hlc. congruence.
-    + cbn [map] in Hup. injection Hup as Hu0. destruct Hh0 as [?|[?|?]]; subst h0; discriminate.
+    + pose proof (f_equal (fun l => nth 1 l 0) Hlow) as Hl1. cbn [map nth] in Hl1. congruence.
+    + pose proof (f_equal (fun l => nth 0 l 0) Hup) as Hu. cbn [map nth] in Hu.
+      destruct Hh0 as [?|[?|?]]; subst h0; vm_compute in Hu; discriminate.
   - (* the separator *)
     rewrite last_index_none in Hone; [discriminate|].
     intros [H|[H|[H|H]]].
@@ -183,7 +184,7 @@ Proof.
       change (h0 :: 110 :: 49 :: chars') with ([h0; 110] ++ 49 :: chars') in Hone.
       rewrite (last_index_app 49 [h0; 110] chars' Hsep') in Hone. injection Hone as Hone. subst one.
       destruct Hcase as [Hlow|Hup].
-      2:{ cbn [map] in Hup. injection Hup as _ Hu _. exact (upper_110 (eq_sym Hu)). }
+      2:{ pose proof (f_equal (fun l => nth 1 l 0) Hup) as Hu. cbn [map nth] in Hu. vm_compute in Hu. discriminate. }
       rewrite <- Hlow in Hone', Ehh, Htb. clear Hlow.
       change (h0 :: 110 :: 49 :: chars') with ([h0; 110] ++ 49 :: chars') in Hone'.
       rewrite (last_index_app 49 [h0; 110] chars' Hsep') in Hone'. injection Hone' as Hone'. subst one'.
